@@ -18,7 +18,8 @@ ASSUMPTIONS = ["the reference predicate vf.oracles.is_missing is itself trusted 
                "inputs the functions reject with TypeError by documented validation (mixed str/number lists) are not generated"]
 REQUIRED_MONITORS = ["is_unlabeled", "is_labeled", "unlabeled_indices", "labeled_indices", "ExtLabelEncoder.transform",
                      "ExtLabelEncoder.inverse_transform", "C16.round-trip-oracle"]
-SENT = [("nan", np.nan, float, [0.5, 1.0, 2.0]), ("none_num", None, object, [1, 2, 3]),
+SENT = [("str_prefix", "nan", "<U3", ["n", "na", "y"]),      # labels that are prefixes of the (longer) sentinel
+        ("nan", np.nan, float, [0.5, 1.0, 2.0]), ("none_num", None, object, [1, 2, 3]),
         ("none_str", None, object, ["a", "b", "c"]), ("neg1", -1, int, [0, 3, 7]), ("float_s", -1.5, float, [0.0, 1.0, 2.5]),
         ("int99", 99, int, [10, 20, 30]), ("str_s", "zz", "<U2", ["a", "b", "c"]), ("empty", "", "<U2", ["a", "b", "c"])]
 _ready = [False]
@@ -87,6 +88,9 @@ def setup():
         self, y = a["self"], np.asarray(a["y"])
         srt = sorted(list(self.classes_))
         r = np.asarray(result)
+        if r.shape != y.shape:
+            fc.record("ExtLabelEncoder.inverse_transform", "wrong-shape", "%s vs input %s" % (r.shape, y.shape))
+            return
         for code, lab in zip(y.ravel().tolist(), r.ravel().tolist()):
             if code == -1:
                 ok = _eq(lab, self.missing_label)
@@ -144,6 +148,10 @@ def run_case(desc):
     flat, mflat = y.reshape(-1), mask.reshape(-1)
     for i in range(flat.size):
         flat[i] = ml if mflat[i] else classes[rng.randint(3)]
+    if y.size and not mask.any() and (desc["seed"] >> 9) % 2:
+        # no missing entry: natural (possibly narrower) dtype, as built from the labels alone
+        y = np.array(y.tolist())
+        flat = y.reshape(-1)
     arg = y.tolist() if desc["as_list"] and y.size else y
     fc.drain()
     viol = []
@@ -186,7 +194,9 @@ def run_case(desc):
                 wantc = [want_classes.index(v) for v in flat[~mflat].tolist()]
                 if codes.tolist() != wantc:
                     add("ExtLabelEncoder", "wrong-code", "y=%r enc=%r" % (_short(y), np.asarray(enc).tolist()))
-            if not all(_eq(d, o) for d, o in zip(np.asarray(dec).reshape(-1).tolist(), flat.tolist())):
+            if np.asarray(dec).shape != y.shape:
+                add("ExtLabelEncoder", "round-trip-changes-shape", "y shape %s -> %s" % (y.shape, np.asarray(dec).shape))
+            elif not all(_eq(d, o) for d, o in zip(np.asarray(dec).reshape(-1).tolist(), flat.tolist())):
                 add("ExtLabelEncoder", "round-trip-fails", "y=%r -> %r -> %r" % (_short(y), np.asarray(enc).tolist(), np.asarray(dec).tolist()))
     except Exception as ex:
         add("label-utils", "exception:%s" % type(ex).__name__, "y=%r ml=%r: %s" % (_short(y), ml, str(ex)[:150]))
